@@ -61,6 +61,40 @@ NOT covered by this tier
     equal values, so `[1, 2]` loaded as `array([1, 2])` and `4` loaded as `array(4)` count as equal.
   * histories longer than 4 operations; DataFrame round trips (C10/C11); non-string dict keys; RDMs with one condition.
 
+Dimension sweep (added after three rounds of property-breaking changes; every clause is the statement applied to an input
+the tier did not vary before -- the expected value is always the snapshot / a twin built from the case):
+  typed-data        dissimilarities / measurements / model RDMs held as uint8, int16, int32, uint64 beyond 2**63, int64 beyond
+                    2**53, float16, bool (`_values` kinds TYPED_VALS); Result evaluations / variances / noise ceiling as float32;
+                    descriptor values: integers beyond 2**53 (scalar, list, array), uint8 / int16 / float32 arrays.  Numbers that
+                    come back in another dtype are compared as exact Python numbers (`_veq_norm`), not through float64.
+  extreme-units     values that need all 53 bits (1/3, 1/7, ...: a detour through float32 or a rounding shows), values in units of
+                    1e-26 and 1e+12, the smallest denormal, the largest float (UNIT_VALS; Result `unit`, model `vals`) in main
+                    arrays and in descriptor scalars / lists / arrays
+  containers        0-d and 3-d array descriptors, bool / empty lists, float tuples per item; descriptor names with blanks
+                    (keys='spaces'); strings with leading / trailing blanks, a 70 kB string (beyond the 64 KiB compact
+                    attribute of HDF5), string lists whose widths differ by a factor 300
+  repeated values   per-item descriptors with repeated, interleaved values whose first appearance is not sorted (int and str);
+                    Results whose models all carry the same name ('repeated-names')
+  sizes             25 RDMs x 12 conditions, 40 x 12 data sets (thorough: 40 x 30, 2 x 60, 300 x 40); objects WITHOUT any RDM /
+                    observation / channel ('size-0'); ragged lists with 10 / 12 / 23 entries, stored under the names '0'..'11'
+                    whose alphabetical order is not the order of the items
+  path-spelling     non-ASCII + blanks in the file name, a path relative to the working directory, a nested directory with
+                    blanks and dots, a file name that contains the other format's suffix in the middle (TARGETS_X)
+  call sequences    C16/sequence (see the oracle); `twice`: the loaded object saved and loaded again is still equal
+  environment       C16/interpreter: written here, read in a new interpreter with another PYTHONHASHSEED, and back
+  existing files    C16/overwrite `old`: the existing file holds a smaller object, an equal object, zero bytes, bytes of no known
+                    format, the old object in the OTHER format
+Pending triage (registrations behind `if False`, HDF5 only; pickle round-trips them):
+  range-descriptor  a `range` as descriptor value is neither stored nor rejected by `_write_to_group` (last `Iterable` branch):
+                    the key is missing after loading -- the mechanism of the old tuple-descriptor finding, still open for
+                    range (and bytes)
+  digit-string-key  descriptors NAMED '0', '1', ... (or a dict-valued descriptor with such keys): `_read_group` takes every
+                    group whose names are '0'..'n-1' for a list written by `_write_list`; the loaded Dataset cannot be built
+                    (AttributeError) / the dict comes back as a list
+NOT demanded by the sweep: the dtype of ModelFixed predictions for a model built from an integer VECTOR (values equal, float
+after loading); the shape of an EMPTY 2-D per-item descriptor; byte-identical files for two saves; an open handle that is not
+positioned at its start when it is handed to save(overwrite=True).
+
 Known findings on the unchanged tree (all HDF5 only; own input_class each, all under the obligation
 `C16/_write_to_group/oracle/descriptor-value-types`; see C16_findings.md):
   tuple-descriptor, unicode-string-array, ragged-list-descriptor, mixed-list-descriptor, slash-in-key.
@@ -264,7 +298,7 @@ SWEEP_DESC = ['bigint', 'arr-bigint', 'float-precise', 'float-tiny', 'arr-precis
               'arr-0d', 'arr-3d', 'str-spaces', 'str-long', 'list-width', 'list-bool', 'list-empty']
 SOLO_DESC = ('str-long',)        # only on its own (70 kB per object would slow the combined cases down)
 DESC_KINDS = DESC_KINDS + SWEEP_DESC
-PENDING_DESC = ['range']         # pending triage: range-descriptor
+PENDING_DESC = ['range', 'dict-digit']         # pending triage: range-descriptor, digit-string-key
 
 
 def _dval(kind, n=3):
@@ -372,6 +406,8 @@ def _dval(kind, n=3):
         return []
     if kind == 'range':
         return range(3)
+    if kind == 'dict-digit':
+        return {'0': 'pre', '1': 'post'}
     raise ValueError(kind)
 
 
@@ -465,6 +501,8 @@ def _case_class(case, default):
             return FINDING_CLASS[k]
         if k == 'range':
             return 'range-descriptor'
+        if k == 'dict-digit':
+            return 'digit-string-key'
     for key, n in case.get('_axis_sizes', {}).items():
         for k in case.get(key, []):
             c = _axis_class(k, n)
@@ -1747,6 +1785,8 @@ def tier_c(run, thorough):
             chk_one(orc_dataset, dict(kind='dataset', n_obs=2, n_ch=3, desc=[], obs_desc=['list-int', 'list-str'], ch_desc=[], keys='digit',
                                       fmt=fmt, target='path'), {})
             chk_one(orc_rdms, dict(n_rdm=2, n_cond=3, desc=['dict'], rdm_desc=[], pat_desc=[], keys='digit', fmt=fmt, target='path'), {})
+            chk_one(orc_rdms, dict(n_rdm=2, n_cond=3, desc=['dict-digit'], rdm_desc=[], pat_desc=[], fmt=fmt, target='path'), {})
+            chk_one(orc_dataset, dict(kind='dataset', n_obs=2, n_ch=3, desc=['dict-digit'], obs_desc=[], ch_desc=[], fmt=fmt, target='path'), {})
     bd.done()
     bds.append(bd)
 
